@@ -13,7 +13,7 @@
    Byte strings are lists of N with every element < 256 (bytes_ok) and a length that fits
    `unsigned int`.  `prev` is the value a previous call left in m_variable_field_size. *)
 From OlaBase Require Import Bytes.
-From C14 Require Import Model Spec PidDescs ProofsA ProofsB ProofsC ProofsD.
+From C14 Require Import Model Spec Loader PidDescs ProofsA ProofsB ProofsC ProofsD ProofsE.
 Local Open Scope N_scope.
 
 (* Decoding never reads outside the supplied bytes (Oob is the model's outcome for any such read:
@@ -154,7 +154,8 @@ Print Assumptions c14_consistent_sound.
 (* Every descriptor the real loader builds from data/rdm (table regenerated on every run) is
    well-formed and passes the consistency check; the table is not trivially small. *)
 Theorem c14_shipped :
-  forallb (fun e => wf_desc (snd e) && consistent (snd e)) PidDescs.all = true /\
+  forallb (fun e => wf_desc (snd e) && consistent (snd e) && forallb nonzero_block (snd e))
+          PidDescs.all = true /\
   1000 <=? len PidDescs.all = true.
 Proof. split; [exact shipped_wf|exact shipped_nonempty]. Qed.
 Print Assumptions c14_shipped.
@@ -171,7 +172,7 @@ Theorem c14_shipped_generic : forall key fs prev bs,
 Proof.
   intros key fs prev bs Hin Hbs Hlen. change (2^32) with 4294967296 in Hlen.
   pose proof shipped_wf as W. rewrite forallb_forall in W. specialize (W _ Hin). cbn [snd] in W.
-  apply andb_prop in W as [Hwf _].
+  apply andb_prop in W as [W _]. apply andb_prop in W as [Hwf _].
   destruct (inflate_total prev fs bs Hwf Hbs Hlen) as (H1 & H2 & H3).
   repeat split; try assumption; try (apply (inflate_accepts_iff prev fs bs Hwf Hbs Hlen)).
   intros m E. destruct (inflate_roundtrip prev fs bs m Hwf Hbs Hlen E) as (L & HL & HA & HS).
@@ -181,10 +182,10 @@ Qed.
 Print Assumptions c14_shipped_generic.
 
 (* GroupSizeCalculator (block count of the variable group derived from a token count when a
-   message is built from text): it never divides by a zero token count when every variable
-   top-level group has a token per block, which holds for every shipped descriptor. *)
+   message is built from text): with fixes/02 it never divides by a zero token count, for any
+   descriptor; every shipped variable group has a token per block anyway. *)
 Theorem c14_group_size_calculator : 
-  (forall tc fs, gtok_ok fs = true -> gcalc tc fs <> GDivZero) /\
+  (forall tc fs, gcalc tc fs <> GDivZero) /\
   forallb (fun e => gtok_ok (snd e)) PidDescs.all = true.
 Proof. split; [exact gcalc_no_divzero|exact shipped_gtok]. Qed.
 Print Assumptions c14_group_size_calculator.
@@ -201,7 +202,9 @@ Print Assumptions c14_store_consistent.
 (* The hypotheses are satisfiable / the definitions compute what they should. *)
 Example ex_wf : consistent [FInt 2 false false; FString 0 32; FGroup 0 (-1) [FUID; FBool]] = false
              /\ wf_desc [FInt 2 false false; FGroup 0 (-1) [FUID; FBool]] = true
-             /\ wf_desc [FGroup 0 (-1) []] = false.
+             /\ wf_desc [FGroup 0 (-1) []] = true    (* an empty variable group: decodes only the empty payload *)
+             /\ inflate 0 [FGroup 0 (-1) []] [] = Msg [] /\ inflate 0 [FGroup 0 (-1) []] [7] = Null
+             /\ wf_desc [FGroup 2 2 [FGroup 30000 30000 [FGroup 30000 30000 [FInt 8 false false]]]] = false.
 Proof. vm_compute. repeat split; reflexivity. Qed.
 Example ex_roundtrip :
   inflate 7 [FInt 2 false false; FString 0 8; FBool] [1; 2; 104; 105; 0; 33; 1] =
@@ -260,3 +263,82 @@ Proof.
     apply (override_none tbl ptbl).
 Qed.
 Print Assumptions c14_override_semantics.
+
+(* What the loader enforces on a store (loader_rules: per manufacturer no PID value / name twice, ESTA
+   PID values outside the manufacturer range) makes lookups unambiguous for ANY table that satisfies
+   it -- a future data file the loader accepts is covered without re-running a finite check -- and
+   the regenerated shipped table satisfies it. *)
+Theorem c14_loader_rules :
+  (forall lo hi tbl man pid name, loader_rules lo hi tbl = true ->
+     match find_pid tbl man pid with
+     | Some e => In e tbl /\ fst (fst e) = man /\ snd (fst e) = pid /\
+                 forall e', In e' tbl -> fst (fst e') = man -> snd (fst e') = pid -> e' = e
+     | None => forall e', In e' tbl -> ~ (fst (fst e') = man /\ snd (fst e') = pid)
+     end /\
+     match find_name tbl man name with
+     | Some e => In e tbl /\ fst (fst e) = man /\ snd e = name /\
+                 forall e', In e' tbl -> fst (fst e') = man -> snd e' = name -> e' = e
+     | None => forall e', In e' tbl -> ~ (fst (fst e') = man /\ snd e' = name)
+     end) /\
+  loader_rules PidDescs.MANUFACTURER_PID_MIN PidDescs.MANUFACTURER_PID_MAX PidDescs.pids = true.
+Proof.
+  split; [|exact shipped_loader_rules].
+  intros lo hi tbl man pid name H. destruct (loader_rules_nodup lo hi tbl H) as [Hv Hn].
+  split; [exact (lookup_pid_unique tbl man pid Hv)|exact (lookup_name_unique tbl man name Hn)].
+Qed.
+Print Assumptions c14_loader_rules.
+
+(* Constants the model and the statements above use as literals, regenerated from the headers on
+   every run (exporter.cpp): field sizes of max_size, the unlimited-blocks marker -1, the serializer's
+   initial buffer, the ESTA manufacturer id 0 of the tables, the manufacturer PID range, and the RDM
+   parameter data limit that lies inside the 0-255 payload lengths the check sweeps. *)
+Theorem c14_consts :
+  (max_size FIPv4, max_size FIPv6, max_size FMAC, max_size FUID) =
+  (PidDescs.SIZE_IPV4, PidDescs.SIZE_IPV6, PidDescs.SIZE_MAC, PidDescs.SIZE_UID) /\
+  PidDescs.UNLIMITED_BLOCKS = (-1)%Z /\ PidDescs.INITIAL_BUFFER_SIZE = 256 /\
+  PidDescs.ESTA_MANUFACTURER_ID = 0 /\
+  (PidDescs.MANUFACTURER_PID_MIN, PidDescs.MANUFACTURER_PID_MAX) = (32768, 65504) /\
+  PidDescs.MAX_PARAM_DATA_LENGTH = 231 /\
+  (* BOOL UINT8 UINT16 UINT32 STRING GROUP INT8 INT16 INT32 IPV4 UID MAC IPV6 UINT64 INT64 of Pids.proto,
+     the literals of Loader.conv_field *)
+  PidDescs.FIELD_TYPE_CODES = [1; 2; 3; 4; 5; 6; 7; 8; 9; 10; 11; 12; 13; 14; 15].
+Proof. repeat split; reflexivity. Qed.
+Print Assumptions c14_consts.
+
+(* The loader is modelled (Loader.v: field/frame/PID conversion with the uint8_t/uint16_t/int16_t
+   truncations, GetPidList's duplicate and range checks, LoadFromProto, BuildStore without overrides).
+   Run on the shipped data files AS THE REAL PROTOBUF TEXT PARSER READS THEM (shipped_proto, regenerated
+   every run), the model loads them without error and yields exactly the descriptor and PID tables and
+   the set of stores that the real loader built (PidDescs.all / pids / store_index_sizes, regenerated
+   every run), with validation on and off. *)
+Theorem c14_loader_model_shipped : loader_matches true = true /\ loader_matches false = true.
+Proof. exact shipped_loader_matches. Qed.
+Print Assumptions c14_loader_model_shipped.
+
+(* For ANY data the loader model accepts: no (manufacturer, PID value) is defined twice, and with
+   validation every frame format passes DescriptorConsistencyChecker (hence, by
+   c14_consistent_sound, is never refused as MULTIPLE_VARIABLE_FIELDS / NESTED_VARIABLE_GROUPS). *)
+Theorem c14_loader_model_rules : forall validate lo hi p L ids,
+  load_model validate lo hi p = Some (L, ids) ->
+  nodupb keq_value (pids_of L) = true /\
+  (validate = true -> forall e fs n, In e L -> In (Some fs) (snd e) ->
+     consistent fs = true /\ calc n fs <> MultipleVar /\ calc n fs <> NestedVar).
+Proof.
+  intros validate lo hi p L ids H. destruct (load_model_rules validate lo hi p L ids H) as [H1 H2].
+  split; [assumption|]. intros Hv e fs n Hin Hs. pose proof (H2 Hv e fs Hin Hs) as Hc.
+  split; [assumption|]. now apply consistent_sound.
+Qed.
+Print Assumptions c14_loader_model_rules.
+
+Example ex_loader :
+  load_model true 32768 65504
+    ([([80], 16, [Some [PF 6 None None [PF 11 None None []]]; None; None; None])],
+     [(161, [([81], 32768, [Some [PF 5 (Some 2) (Some 4294967295) []]; None; None; None])])]) =
+  Some ([((0, 16), [80], [Some [FGroup 0 (-1) [FUID]]; None; None; None]);
+         ((161, 32768), [81], [Some [FString 2 255]; None; None; None])], [0; 161]) /\
+  (* a frame format with two variable-size fields is refused when validating, accepted otherwise *)
+  load_model true 32768 65504
+    ([([80], 16, [Some [PF 5 None (Some 8) []; PF 5 None (Some 8) []]; None; None; None])], []) = None /\
+  load_model false 32768 65504
+    ([([80], 16, [Some [PF 5 None (Some 8) []; PF 5 None (Some 8) []]; None; None; None])], []) <> None.
+Proof. vm_compute. repeat split; try reflexivity. discriminate. Qed.
